@@ -241,6 +241,43 @@ def read_args(run, h, wd, rng):
         if len(recs) != 3 or got != exp or not all(np.array_equal(r.ns.amplitude, v[0]) for r, v in zip(recs, vecs)):
             run.violation(f"read-args:kwargs={f['kf']}:degrees={f['df']}", f"{key}: degrees {got}, expected {exp} (recordings in order)", dict(kind="read-args", forms=f))
         run.case(("args", f["kf"], f["df"]))
+    # reader options other than the format reach every file of a recording: a time window (starttime / endtime) on recordings
+    # given as ONE combined miniSEED file and as THREE per-component files, options given once and per recording
+    t0 = UTCDateTime(2021, 3, 4)
+    win = {"format": "MSEED", "starttime": t0 + 0.095, "endtime": t0 + 0.305}      # samples 10 .. 30 at 100 Hz
+    three = []
+    for i in range(3):
+        names_i = []
+        for l, d in zip(("BHN", "BHE", "BHZ"), vecs[i]):
+            fn = os.path.join(wd, f"args3_{i}_{l}.mseed")
+            Stream([Trace(d.astype(np.float32), header=dict(sampling_rate=100.0, channel=l, station=f"S{i}", network="XX", starttime=t0))]).write(fn, format="MSEED")
+            names_i.append(fn)
+        three.append(names_i)
+    import obspy
+    # what obspy itself returns for these options (its own rounding of the window ends), per recording and component
+    want = [[obspy.read(three[i][c], **win)[0].data.astype(np.float64) for c in range(3)] for i in range(3)]
+    if not all(5 < len(want[i][0]) < 40 for i in range(3)):
+        raise Exception("instance construction: the time window does not cut the traces")
+    for layout, fnames in (("one file per recording", [[x] for x in files]), ("three files per recording", three)):
+        for form in ("one", "each"):
+            kw = dict(win) if form == "one" else [dict(win) for _ in range(3)]
+            key = f"read({layout}, obspy_read_kwargs with starttime/endtime given {form})"
+            try:
+                with warnings.catch_warnings():
+                    warnings.simplefilter("ignore")
+                    recs = h.read(fnames, obspy_read_kwargs=kw)
+                    single = h.read_single(fnames[1] if len(fnames[1]) > 1 else fnames[1][0], obspy_read_kwargs=dict(win))
+            except Exception as e:
+                run.violation(f"read-args:window:{layout.split()[0]}", f"{key} raised {type(e).__name__}: {e}", dict(kind="read-args-window", layout=layout, form=form))
+                continue
+            for k, r in enumerate(list(recs) + [single]):
+                v = want[k] if k < 3 else want[1]
+                if not (np.array_equal(r.ns.amplitude, v[0]) and np.array_equal(r.ew.amplitude, v[1]) and np.array_equal(r.vt.amplitude, v[2])):
+                    run.violation(f"read-args:window:{layout.split()[0]}", f"{key}: recording {k if k < 3 else 'read_single'} holds {r.ns.n_samples} samples "
+                                  f"(first {r.ns.amplitude[:2].tolist()}), obspy returns {len(v[0])} samples for the requested window ({v[0][:2].tolist()} ...)",
+                                  dict(kind="read-args-window", layout=layout, form=form))
+                    break
+            run.case(("args-window", layout, form))
 
 
 def gcf(run, h):
